@@ -83,10 +83,20 @@ def calls_with_paths(fn):
                 for x in nb:
                     for y in ast.walk(x):
                         skip.add(id(y))
+            # calls inside a lambda or a generator expression run LATER (when the lambda is called / the generator is consumed),
+            # in whatever state the global generator then has: no statement of this function dominates them
+            deferred = set()
+            for y in ast.walk(st):
+                if isinstance(y, (ast.Lambda, ast.GeneratorExp)):
+                    for z in ast.walk(y):
+                        deferred.add(id(z))
             for y in ast.walk(st):
                 if isinstance(y, ast.Call) and id(y) not in skip:
-                    res.append((y, here))
-            if isinstance(st, (ast.FunctionDef, ast.ClassDef)):
+                    res.append((y, here if id(y) not in deferred else []))
+            if isinstance(st, (ast.FunctionDef, ast.AsyncFunctionDef)):
+                walk_block(st.body, [])          # a nested function is its own dominance scope (it runs when it is called)
+                continue
+            if isinstance(st, ast.ClassDef):
                 continue
             for nb in nested:
                 blk = []
